@@ -135,7 +135,9 @@ func (c *c03) genProject(r *rng) (Project, bool) {
 	multi := false
 	if r.chance(700) {
 		multi = true
-		switch r.n(10) {
+		switch r.n(11) {
+		case 10:
+			cfg.LateFaults = 2 + r.n(3)
 		case 9:
 			cfg.PathTypeRefs = 2 + r.n(4)
 		case 8:
@@ -157,8 +159,13 @@ func (c *c03) genProject(r *rng) (Project, bool) {
 		case 4:
 			cfg.RecursiveMacros, cfg.UnusedPathParams, cfg.BadTypes, cfg.BadEnums = r.n(3), r.n(3), r.n(3), r.n(3)
 		}
-		cfg.Enums += 2
-		cfg.EnumsInTypes = true
+		if cfg.LateFaults > 0 {
+			// nothing may reject the document before the last stage
+			cfg.Enums, cfg.EnumsInTypes, cfg.BadEnums, cfg.BadTypes = 0, false, 0, 0
+		} else {
+			cfg.Enums += 2
+			cfg.EnumsInTypes = true
+		}
 	}
 	rs := *r // the twin is generated from the same PRNG state
 	d := generateDoc(r, cfg)
@@ -305,7 +312,9 @@ func (c *c03) runAlt(cs *Case, a *altEnv, forced []simrt.Decision) (Result, []si
 	}
 	if len(a.Companions) == 0 {
 		c.st.Exec++
-		r, _, dec := execute(p, cs.Opts, a.Env, nil, cs.Seed+1, forced)
+		// every environment draws from its own PRNG stream (scheduling of goroutines that the
+		// library itself starts, shuffles, pool choices)
+		r, _, dec := execute(p, cs.Opts, a.Env, nil, cs.Seed+1+uint64(a.Env.RandSeed)*7919+uint64(a.Env.MapPolicy), forced)
 		return r, dec
 	}
 	// companions: processed concurrently under a seeded schedule
@@ -359,6 +368,7 @@ func executeConcurrent(ps []*Project, o Opts, env Env, seed uint64, forced []sim
 			res[i].PanicSig = "goroutine:" + normPanicMsg(fmt.Sprint(pv))
 		}
 	}
+	notePanics(&res[0], nil)
 	dec, _ := simrt.Decisions()
 	simrt.SetBudget(^uint64(0), ^uint64(0))
 	eh, en := simrt.EventHash()
@@ -625,6 +635,9 @@ func (c *c03) attribute(cs *Case, a *altEnv, ref *Result, what string) string {
 	zero := zeroExcept(func(d simrt.Decision) bool { return false })
 	if differs(zero, false, false) {
 		return "clock-or-rng"
+	}
+	if treeSpawnsGoroutines() && differs(zeroExcept(func(d simrt.Decision) bool { return d.K == simrt.KSched }), false, false) {
+		return "schedule-of-goroutines-started-by-the-library"
 	}
 	return "combined"
 }
